@@ -151,6 +151,9 @@ type observation struct {
 	docs       map[string]bool // every document serialisation returned by any read
 	// byHashMismatch: Resolve by the hash of a stored version returned another document or hash (observation)
 	byHashMismatch string
+	// activeAtDeactivation: per DID, the first instant at or after the set's earliest deactivation time at which
+	// Resolve(ResolveTime) without AllowDeactivated returned a document
+	activeAtDeactivation map[int]string
 }
 
 func iterContents(iterate func(fn resolver.DocIterator) error) string {
@@ -167,7 +170,7 @@ func iterContents(iterate func(fn resolver.DocIterator) error) string {
 }
 
 func observe(t *testing.T, s didstore.Store, c *compiled) observation {
-	o := observation{latest: map[int]result{}, latestNil: map[int]result{}, docs: map[string]bool{}}
+	o := observation{latest: map[int]result{}, latestNil: map[int]result{}, docs: map[string]bool{}, activeAtDeactivation: map[int]string{}}
 	add := func(name string, r result) {
 		o.Fields = append(o.Fields, field{name, r.String()})
 		if r.Doc != nil {
@@ -192,6 +195,23 @@ func observe(t *testing.T, s didstore.Store, c *compiled) observation {
 			if c.hasDeactivation(d) {
 				// without AllowDeactivated the store skips deactivated versions and answers with an earlier active one
 				add(fmt.Sprintf("%sby-time-active/%+d", p, int(tm.Sub(t0)/time.Second)), normalise(s.Resolve(id, &resolver.ResolveMetadata{ResolveTime: &tm})))
+			}
+		}
+		if T, ok := c.deactivationTime(d); ok {
+			// clause "a deactivated DID never resolves as active again", by time: around the signing time of the (earliest)
+			// deactivation of the set. At or after that instant no document may be returned without AllowDeactivated.
+			for _, b := range []struct {
+				label string
+				tm    time.Time
+				judge bool
+			}{{"-1s", T.Add(-time.Second), false}, {"-1ns", T.Add(-1), false}, {"at", T, true}, {"+1ns", T.Add(1), true},
+				{"+1s", T.Add(time.Second), true}, {"+10y", T.AddDate(10, 0, 0), true}} {
+				tm := b.tm
+				rb := normalise(s.Resolve(id, &resolver.ResolveMetadata{ResolveTime: &tm}))
+				add(p+"around-deactivation/"+b.label, rb)
+				if b.judge && rb.Err == "" && o.activeAtDeactivation[d] == "" {
+					o.activeAtDeactivation[d] = b.label
+				}
 			}
 		}
 		for i, e := range c.events {
@@ -754,6 +774,16 @@ func judge(r *ev.Run, c *compiled, order []int, x execution, label string) {
 	}
 	if x.obs.byHashMismatch != "" {
 		r.Observation("resolve-by-hash-of-a-stored-version-returns-other-bytes", map[string]any{"set": c.name, "order": order, "where": x.obs.byHashMismatch})
+	}
+	for d, label := range x.obs.activeAtDeactivation {
+		if label != "" {
+			when := "after-the-deactivation-time"
+			if label == "at" {
+				when = "exactly-at-the-deactivation-time"
+			}
+			r.Violation("C10|deactivated|resolves-active-by-time|"+when,
+				fmt.Sprintf("set %s, order %v: DID %d is deactivated by an event of the set, yet Resolve with ResolveTime = deactivation time %s (no AllowDeactivated) returns a document", c.name, order, d, label), rcase)
+		}
 	}
 	if x.activeAfterDeactivation >= 0 {
 		r.Violation("C10|deactivated|resolves-active-after-deactivation-arrived",
